@@ -4,6 +4,7 @@ import CssVerif.Lemmas.SelUsed
 import CssVerif.Lemmas.SelList
 import CssVerif.Lemmas.SelAcc
 import CssVerif.Lemmas.SelTok
+import CssVerif.Lemmas.SelAttachSpec
 /-!
 # C16 — selector specificity, structure and list semantics
 
@@ -359,5 +360,72 @@ example : tokensOf [97, 46, 98, 35, 99, 91, 100, 124, 61, 101, 93, 58, 110, 111,
     [⟨.ident, [97]⟩, ⟨.char, [46]⟩, ⟨.ident, [98]⟩, ⟨.hash, [35, 99]⟩, ⟨.char, [91]⟩, ⟨.ident, [100]⟩,
      ⟨.dashmatch, [124, 61]⟩, ⟨.ident, [101]⟩, ⟨.char, [93]⟩, ⟨.char, [58]⟩, ⟨.function, [110, 111, 116, 40]⟩,
      ⟨.ident, [102]⟩, ⟨.char, [41]⟩, ⟨.char, [62]⟩, ⟨.ident, [103]⟩] := by decide +kernel
+
+/-! ## T16.5 — attaching a selector to a sheet (`Selector._namespaces`, selector.py:673-678)
+
+While a selector is not attached, `do_css_Selector` writes it with its own dict `__namespaces` — the namespaces it was
+parsed with, filtered to the URIs it uses (`SelRec.nsUsed`); once `parent.parentRule.parentStyleSheet` exists, with the
+namespaces of that sheet (`SelRec.textIn sheetNs`). Specificity, `seq` and `element` are stored: attaching cannot
+touch them (they are fields of `SelRec`; `textIn` reads `seq` only). -/
+
+/-- **T16.5 `attach_text_congr`** (every item sequence, any two namespace maps): the written text depends on the
+namespaces only through the decision "this URI is the default namespace" and the prefix found for the URIs that are
+written with a prefix. -/
+theorem attach_text_congr (ns₁ ns₂ : NsMap) (seq : List Item)
+    (h : ∀ it ∈ seq, ∀ u n, it.val = .ns u n →
+      plainOf (nsGet ns₁ []) u = plainOf (nsGet ns₂ []) u ∧
+      ∀ y, u = .uri y → plainOf (nsGet ns₂ []) u = false → prefixFor ns₁ y = prefixFor ns₂ y) :
+    serItems ns₁ seq = serItems ns₂ seq := serItems_congr ns₁ ns₂ seq h
+
+/-- **T16.5 `attach_keeps_text`**: a written selector parsed with the namespaces `ns` of a sheet (a dict: no prefix
+twice) and then attached to that sheet keeps its specificity, its items and its **text**: the sheet's namespaces
+write what the selector's own filtered namespaces wrote. -/
+theorem attach_keeps_text (ns : NsMap) (s : Sel) (hs : s.ok ns = true) (hnd : (ns.map (·.1)).Nodup) :
+    ∃ r, parseSel ns s.raw = .ok (some r) ∧ (r.b, r.c, r.d) = s.count ∧ r.seq = s.items ns ∧
+      r.textIn ns = r.text := by
+  obtain ⟨uris, hu⟩ := usedUris_ok (s.items ns)
+  have hne : s.raw.isEmpty = false := by
+    cases hr : s.raw with
+    | nil =>
+      have h := spec_render ns s hs
+      rw [hr] at h
+      simp [parseCore, prepare, prepAcc, run, finishCore, bind, Except.bind, pure, Except.pure] at h
+    | cons t ts => rfl
+  refine ⟨{ b := s.count.1, c := s.count.2.1, d := s.count.2.2, seq := s.items ns, element := s.element ns,
+            nsUsed := ns.filter fun pu => uris.contains (.uri pu.2) }, ?_, rfl, rfl, ?_⟩
+  · simp [parseSel, hne, spec_render ns s hs, commit, usedNamespaces, hu, bind, Except.bind, pure, Except.pure]
+  · exact (serItems_filter ns (s.items ns) uris hu hnd (items_nsTyped ns s hs) (items_noneOnly ns s hs)).symm
+
+/-- the same from the text: tokenize, parse, attach -/
+theorem attach_keeps_text_of_text (ns : NsMap) (s : Sel) (hs : s.ok ns = true) (hp : plainChain s.raw = true)
+    (hnd : (ns.map (·.1)).Nodup) :
+    ∃ r, parseSel ns (tokensOf s.text) = .ok (some r) ∧ (r.b, r.c, r.d) = s.count ∧ r.seq = s.items ns ∧
+      r.textIn ns = r.text := by
+  rw [Sel.text, tokenize_plain s.raw hp]
+  exact attach_keeps_text ns s hs hnd
+
+/-- the namespaces of a sheet of the `Ns` model (C15) are such a map: `Ns.view sheet` — the theorem instantiated -/
+theorem attach_to_sheet (sheet : CssVerif.Ns.Sheet) (s : Sel) (hs : s.ok (CssVerif.Ns.view sheet) = true)
+    (hnd : ((CssVerif.Ns.view sheet).map (·.1)).Nodup) :
+    ∃ r, parseSel (CssVerif.Ns.view sheet) s.raw = .ok (some r) ∧ (r.b, r.c, r.d) = s.count ∧
+      r.textIn (CssVerif.Ns.view sheet) = r.text := by
+  obtain ⟨r, h1, h2, _, h4⟩ := attach_keeps_text (CssVerif.Ns.view sheet) s hs hnd
+  exact ⟨r, h1, h2, h4⟩
+
+/- Full statement (every token list, not only written selectors): for `parseSel ns toks = .ok (some r)` and a dict `ns`,
+   `r.textIn ns = r.text`. Missing: the two invariants of `serItems_filter` — a `(namespaceURI, name)` pair sits only in
+   `*-selector` / `universal` items, and its URI is `None` only without a default namespace — as invariants of
+   `run ns` over all 14 callbacks (they are proved here for the items of written selectors: `items_good`).
+   A sheet whose namespaces differ from the ones the selector was parsed with (a rule moved between sheets; two
+   prefixes for one URI, where the sheet reports the last one): `attach_text_congr` says exactly when the text stays. -/
+
+/-- non-vacuity: `demoNs` is a dict, `demo` is ok — and a TEST by evaluation: with another prefix for the same URI
+the text changes (`q|*` instead of `p|*`), the specificity cannot -/
+example : (demoNs.map (·.1)).Nodup := by decide
+example : ∃ r, parseSel demoNs demo.raw = .ok (some r) ∧ r.textIn demoNs = r.text :=
+  let ⟨r, h1, _, _, h4⟩ := attach_keeps_text demoNs demo (by decide) (by decide); ⟨r, h1, h4⟩
+example : (parseSel demoNs [⟨.ident, [112]⟩, ⟨.char, [124]⟩, ⟨.char, [42]⟩]).toOption.join.map
+    (fun r => (r.text, r.textIn [([113], [117, 114, 110, 58, 112])])) = some ([112, 124, 42], [113, 124, 42]) := by
+  decide
 
 end CssVerif.C16
